@@ -447,3 +447,12 @@ MUTANTS += [
  {"id": "c03-space-orders-table", "prop": "C03", "file": _SMF,
   "old": "            ret[space] = order - i", "new": "            ret[space] = order - 2 * i"},
 ]
+
+MUTANTS += [
+ {"id": "c03-mvp-row-by-ket-space", "prop": "C03", "file": _SMF,
+  "old": "            if space != block[0] or (order is not None and max_order < order):",
+  "new": "            if space != block[1] or (order is not None and max_order < order):"},
+ {"id": "c03-mvp-orders-off-by-one", "prop": "C03", "file": _SMF,
+  "old": "                for o in range(max_order + 1):\n                    mvp += self.mvp_block_order(",
+  "new": "                for o in range(max_order):\n                    mvp += self.mvp_block_order("},
+]
